@@ -9,13 +9,20 @@ pub assume_specification<'a, T: core::ops::Deref> [Option::<T>::as_deref] (o: &'
 
 pub assume_specification [<crate::grammar::ItemPath as core::fmt::Display>::fmt] (p: &crate::grammar::ItemPath, f: &mut core::fmt::Formatter<'_>) -> core::fmt::Result;
 
-pub broadcast axiom fn axiom_fmt_itempath()
-    ensures #[trigger] vstd::std_specs::fmt::fmt_req_all::<crate::grammar::ItemPath>();
+/// formatting a value (Display/Debug inside format!/bail!/anyhow!) has no precondition; message texts are not specified
+pub broadcast axiom fn axiom_fmt_itempath<T>()
+    ensures #[trigger] vstd::std_specs::fmt::fmt_req_all::<T>();
 pub broadcast axiom fn axiom_key_itempath()
     ensures #[trigger] vstd::std_specs::hash::obeys_key_model::<crate::grammar::ItemPath>();
 
 
+/// a `str` value is determined by its characters (needed because Verus encodes a string-literal *pattern*
+/// as equality of `str` values, while `==` on `&str` is specified over the character sequences)
+pub broadcast axiom fn axiom_str_ext(a: &str, b: &str)
+    ensures #[trigger] a@ == #[trigger] b@ ==> a == b;
+
 pub broadcast group group_pyxis_axioms {
+    axiom_str_ext,
     axiom_fmt_itempath,
     axiom_key_itempath,
 }
@@ -44,5 +51,18 @@ pub fn v_once_chain<'a, T>(first: &'a T, rest: &Vec<&'a T>) -> (r: Vec<&'a T>)
     ensures r@ == seq![first] + rest@
 {
     std::iter::once(first).chain(rest.iter().copied()).collect()
+}
+
+// ---------- R-fmt helpers: format!(LIT, args) whose value matters ----------
+#[verifier::external_body]
+pub fn v_format1_usize(lit: &str, a: usize) -> (r: String)
+    ensures r@ == crate::verif_specs::spec_fmt1(lit@, crate::verif_specs::spec_display_usize(a))
+{
+    // the std formatter: `format!(lit, a)` for the literals used at the rewritten sites
+    match lit {
+        "_vfunc_{}" => format!("_vfunc_{}", a),
+        "_field_{size:x}" => format!("_field_{a:x}"),
+        _ => unreachable!("R-fmt applied to an unknown literal"),
+    }
 }
 }
